@@ -83,6 +83,9 @@ def gen_cases(tier, seed):
     add("undef", "br nowhere\nhalt\n"); add("undef", "ld r0 Nowhere\nnowhere halt\n")
     add("dup", "a halt\na halt\n"); add("dup", "a halt\nbr a\na .fill #1\n"); add("case-differs", "a halt\nA halt\nbr a\nbr A\n")
     add("dup", "a\n.break\nhalt\na halt\n")
+    for m in ("br", "ld r1", "lea r2", "st r3", "jsr"):
+        add("case-only-ref", f"Lbl halt\n{m} lbl\n"); add("case-only-ref", f"{m} LBL\nlbl halt\n")
+        add("case-only-ref", f"BUF .fill #1\nBuf .fill #2\n{m} buf\nhalt\n")
     # .orig repeated / positions
     add("orig-twice", ".orig x3000\n.orig x3000\nhalt\n"); add("orig-twice", ".orig x3000\nhalt\n.orig x4000\n")
     add("orig-pos", "halt\n.orig x3000\nhalt\n"); add("orig-pos", "halt\nhalt\n.orig x5000\n")
